@@ -24,6 +24,7 @@ CONSTANTS Fam,        \* enabled generator actions (set of strings)
           CastTys,    \* set of cast types
           TyNames,    \* sequence of type-name strings for `is`
           Prelude,    \* fixed leading statements (definitions the generated part can use)
+          ConPool,    \* sequence of constraints (what may follow `::` in a let)
           MaxD, MaxN, MaxStk, MaxStmts, MaxModStmts, MaxCtx, Ill0,
           EnvNames,   \* sequence of environment variable names programs read (set and unset ones)
           RunVM,      \* TRUE: step the VM after Finish (machine mode); FALSE: stop at Finish
@@ -321,6 +322,27 @@ MkBadLet == On("badlet") /\ Building /\ Cur.kind = "top" /\ Len(Stk) = 1 /\ NGen
                /\ phase' = "closing"
                /\ UNCHANGED << ill, vm >>
 
+(* `let name :: constraint = value` with a constraint of ConPool: a fresh name, or - with   *)
+(* "badlet" - a name that is already bound (the annotation must not turn the let into an     *)
+(* overwrite).  A value that does not pass ends the program like any failing statement.     *)
+MkConLet == On("conlet") /\ Building /\ Cur.kind = "top" /\ Len(Stk) = 1 /\ NGen < MaxStmts /\
+            LET c == Cur
+                t == c.stk[1]
+            IN \E q \in 1..Len(ConPool) : \E j \in 0..Len(Names) :
+                 LET rebind == j = 0
+                     cands == IF rebind THEN {c.scope[z].nm : z \in 1..Len(c.scope)} ELSE {Names[j]}
+                     r == IF Bad(t.v) THEN "fail" ELSE ConFails(t.v, EvalE(ConPool[q], c.scope, << >>))
+                     ok == r = "ok" /\ ~rebind
+                 IN /\ (rebind => On("badlet")) /\ (~rebind => j > c.last)
+                    /\ r # "unm"
+                    /\ \E nm \in cands :
+                         /\ prog' = Append(prog, [s |-> "clet", nm |-> nm, x |-> t.x, con |-> ConPool[q]])
+                         /\ SetCur([c EXCEPT !.stk = << >>, !.last = IF rebind THEN @ ELSE j,
+                                             !.cl = IF ok THEN Worse(@, t.cl) ELSE "dirty",
+                                             !.scope = IF ok THEN Append(@, Fld(nm, t.v)) ELSE @])
+                    /\ phase' = IF ok THEN "gen" ELSE "closing"
+                    /\ UNCHANGED << ill, vm >>
+
 MkExprStmt == On("exprstmt") /\ Building /\ Cur.kind = "top" /\ Len(Stk) = 1 /\ NGen < MaxStmts /\
               /\ prog' = Append(prog, [s |-> "expr", x |-> Cur.stk[1].x])
               /\ SetCur([Cur EXCEPT !.stk = << >>, !.cl = Worse(@, Cur.stk[1].cl)])
@@ -342,7 +364,7 @@ GenInit == /\ ctx = << Ctx("top", Run(Prelude).env, << >>, << >>, 0) >>
 GenNext == \/ PushLit \/ PushVar \/ MkEnvRead \/ MkOuterRef \/ MkLeakRef \/ MkFwdRef \/ MkBin \/ MkNot \/ MkTrace \/ MkFail \/ MkCast \/ MkIs \/ MkInName
            \/ MkList \/ MkTuple \/ MkDotName \/ MkDotIdx \/ MkDotCall \/ MkDotCopy \/ MkRange \/ MkSelect \/ MkCall \/ MkBadCall
            \/ MkCopy \/ MkFmtList \/ MkFmtBad \/ MkFmtSingle \/ MkFop \/ OpenFunc \/ CloseFunc \/ OpenMod \/ CloseMod
-           \/ MkLet \/ MkLetUse \/ MkBadLet \/ MkExprStmt \/ Finish \/ RunStep \/ RunEnd
+           \/ MkLet \/ MkLetUse \/ MkBadLet \/ MkConLet \/ MkExprStmt \/ Finish \/ RunStep \/ RunEnd
 
 (* ---- what is checked ------------------------------------------------------------ *)
 Done == phase = "done"
@@ -350,7 +372,7 @@ Final == IF RunVM THEN vm ELSE RunToEnd(vm, 4000)
 
 (* parse/mod.rs: a let statement may not bind `env` (the parser aborts) - such a *)
 (* program never reaches the translator                                         *)
-ParserRejects(p) == \E j \in 1..Len(p) : p[j].s = "let" /\ p[j].nm = N_env
+ParserRejects(p) == \E j \in 1..Len(p) : p[j].s \in {"let", "clet"} /\ p[j].nm = N_env
 Compiled(m) == IF ParserRejects(prog) THEN [k |-> "fail"] ELSE VMOut(m)
 
 (* C01: executing the compiled form ends as the reference semantics says *)
